@@ -95,6 +95,7 @@ def run_prop(prop, tier, seed):
         bins[name] = path
 
     # 4. run engines (corpus first)
+    oprops = set(spec.get("oracle_props", [prop]))
     if vh:
         for i, e in enumerate(spec.get("engines", [])):
             extra = dict(e.get("extra", {}))
@@ -113,13 +114,13 @@ def run_prop(prop, tier, seed):
                 broken.append(("correspondence", "engine %s exited %s" % (r["engine"], r["rc_vh"]), r["log_vh"][-1500:]))
             for m in r["mismatches"]:
                 broken.append(("correspondence", "engine %s" % r["engine"], m))
-            oracle_failures += [f for f in r["oracle_failures"] if f.get("property", prop) == prop]
+            oracle_failures += [f for f in r["oracle_failures"] if f.get("property", prop) in oprops]
 
     # 5. classify
-    unknown = [f for f in oracle_failures if not core.match_known(prop, f, known)]
+    unknown = [f for f in oracle_failures if not core.match_known(f.get("property", prop), f, known)]
     known_hit = {}
     for f in oracle_failures:
-        k = core.match_known(prop, f, known)
+        k = core.match_known(f.get("property", prop), f, known)
         if k:
             known_hit[k["id"]] = (k, f)
 
@@ -137,8 +138,8 @@ def run_prop(prop, tier, seed):
                 r = core.run_engine(vh, drv, e["engine"], prop, "thorough", sseed, outdir, extra, search=True,
                                     timeout=max(60, int(budget)))
                 searched += (r["stats"] or {}).get("evaluations", 0)
-                fs = [f for f in r["oracle_failures"] if f.get("property", prop) == prop]
-                unknown += [f for f in fs if not core.match_known(prop, f, known)]
+                fs = [f for f in r["oracle_failures"] if f.get("property", prop) in oprops]
+                unknown += [f for f in fs if not core.match_known(f.get("property", prop), f, known)]
                 shutil.rmtree(outdir, ignore_errors=True)
                 if unknown:
                     break
